@@ -132,7 +132,23 @@ UNITS = [
     # the integer methods of EUI (state: _module.version, _value)
     ("netaddr/eui/__init__.py", "pysrc_eui_gen.v", "", " Model.Eui Model.SrcPreludeEui",
      [("EUI", m, {}) for m in ("version", "value", "__int__", "oui", "is_iab", "eui64", "modified_eui64", "ipv6", "ipv6_link_local")]),
+    # the address classification predicates of BaseIP on an IPAddress receiver; the block tables they consult are module-level
+    # names whose VALUES are regenerated by harness/gen/classify.py (coq/Gen/classify_gen.v: rows (kind, version, a, b)): UNIT_TABLES
+    (IPFILE, "pysrc_classify_gen.v", "", " Gen.classify_gen",
+     [("IPAddress", m, {}) for m in ("is_multicast", "is_unicast", "is_loopback", "is_link_local", "is_private", "is_reserved")]),
 ]
+# module-level names of a unit's source file that stand for generated tables: output file -> {name: type}; `row` = one
+# IPNetwork / IPRange object as the row (kind, version, value-or-start, prefixlen-or-end) of classify_gen.v
+UNIT_TABLES = {"pysrc_classify_gen.v": dict([("IPV%d_%s" % (v, n), "row") for v in (4, 6) for n in ("LOOPBACK", "LINK_LOCAL", "MULTICAST")]
+                                            + [("IPV%d_%s" % (v, n), "list row") for v in (4, 6) for n in ("PRIVATE", "RESERVED")])}
+# fixed text at the top of a unit's file.  `x in T` for a table row T is T.__contains__(x) of the row's class:
+UNIT_PREAMBLE = {"pysrc_classify_gen.v": (
+    "(* `x in T` for a row T of Gen/classify_gen.v: the translated __contains__ of the row's class (kind 0 = IPNetwork, 1 = IPRange) *)\n"
+    "Definition src_contains_row (r : Z * Z * Z * Z) (o : operand) : outcome bool :=\n"
+    "  let '(k, ver, a, b) := r in\n"
+    "  if k =? 0 then src_IPNetwork_contains ver (width ver) a b o else src_IPRange_contains ver (width ver) a b o.\n")}
+# the receiver as the operand of `self in T`
+SELF_OPERAND = {"IPAddress": "(OAddr ver v)", "IPNetwork": "(ONet ver v p)", "IPRange": "(ORng ver s e)"}
 # strategy modules whose constants width / version / max_int a unit may read through the alias it imports them under
 UNIT_STRATEGY = {"pysrc_eui_gen.v": (("eui48", "netaddr/strategy/eui48.py"), ("eui64", "netaddr/strategy/eui64.py"))}
 # classes whose constructor call C(e) is represented by its integer argument e (the registry lookup the constructor makes is
@@ -161,7 +177,7 @@ RESERVED = set("ver w v p s e in let if then else match with end fun forall exis
                "py_pop operand OAddr ONet ORng OOther struct "
                "py_nonempty py_sorted_desc py_set_remove py_set_of_list py_set_union py_flat_map_o net_key_eqb py_list_subnet "
                "py_cidr_merge inl inr sum py_except ssize_max py_slice_indices py_range_len iterator ItEmpty ItIprange "
-               "eui ever evalue edialect mk_eui existsb "
+               "eui ever evalue edialect mk_eui existsb py_truthy src_contains_row "
                # constructors / constants of the Coq prelude: a pattern variable of that name would be read as the constructor
                "left right inl inr pair tt I conj eq_refl xH xO xI Z0 Zpos Zneg Lt Gt Eq ex_intro exist inleft inright "
                "Build_net AddrFormatError AddrConversionError ValueError TypeError IndexError KeyError StructError "
@@ -173,7 +189,8 @@ CMP = {ast.Lt: "(%s <? %s)", ast.LtE: "(%s <=? %s)", ast.Gt: "(%s >? %s)", ast.G
        ast.NotEq: "(negb (%s =? %s))"}
 COQTY = {"int": "Z", "bool": "bool", "tuple": "(list Z)", "obj": "(Z * Z)", "net": "net", "self": "Z", "sarg": "sarg",
          "operand": "operand", "unit": "unit", "optint": "(option Z)", "slice": "(option Z * option Z * option Z)",
-         "iterator": "iterator", "eui": "eui", "dialect": "(Z * Z)", "optdialect": "(option (Z * Z))"}
+         "iterator": "iterator", "eui": "eui", "dialect": "(Z * Z)", "optdialect": "(option (Z * Z))", "row": "(Z * Z * Z * Z)",
+         "optbool": "(option bool)"}
 # the kinds of an `operand` (SrcPrelude.operand), their fields and the class each one stands for
 OPERAND = (("OAddr", ("ver", "v")), ("ONet", ("ver", "v", "p")), ("ORng", ("ver", "s", "e")), ("OOther", ()))
 KINDCLASS = {"OAddr": "IPAddress", "ONet": "IPNetwork", "ORng": "IPRange"}
@@ -281,7 +298,7 @@ def is_set(t):
 
 def is_value(t):
     """types whose terms are first-class Coq values that a loop or a join can carry"""
-    return t in ("int", "bool", "net", "optint", "iterator", "eui", "dialect", "optdialect") or (isinstance(t, tuple) and t[0] in ("list", "tup", "set"))
+    return t in ("int", "bool", "net", "optint", "iterator", "eui", "dialect", "optdialect", "row", "optbool") or (isinstance(t, tuple) and t[0] in ("list", "tup", "set"))
 
 
 def parse_type(s):
@@ -479,7 +496,7 @@ class Loop:
                        fn.render(self.ir[1], "    ", self.outcome)))
         return ("(* %s; structural on the remaining elements *)\nFixpoint %s%s (xs : list %s)%s : %s :=\n  match xs with\n"
                 "  | [] =>\n    %s\n  | %s :: xs' =>\n    %s\n  end.\n"
-                % (where, self.name, ps(inv), unparen(coqty(self.elem, self.node)), ps(car), rt,
+                % (where, self.name, ps(inv), coqty(self.elem, self.node), ps(car), rt,
                    fn.render(self.ir[0], "    ", self.outcome), self.target, fn.render(self.ir[1], "    ", self.outcome)))
 
 
@@ -688,6 +705,8 @@ class Fn:
         for (ty, _), (_, pty) in zip(args, d.params):
             unify(node, ty, pty, "argument of %s" % d.cname)
         term = "(%s)" % " ".join([d.cname] + ([state] if state else []) + [t for _, t in args])
+        if d.optional and d.kind == "bool" and getattr(self, "opt_ok", None) == id(node):
+            return ("out", "optbool", term) if d.outcome else ("optbool", term)
         if d.optional:
             bad(node, "use of %s, which may return None" % d.cname)
         if d.mutating and not getattr(node, "state_call", False):
@@ -778,7 +797,11 @@ class Fn:
         return t
 
     def bool_(self, node, env):
+        self.opt_ok = id(node) if isinstance(node, ast.Call) else None      # `if self.m():` / `not self.m()` with m() -> None | bool
         ty, t = self.ex(node, env)
+        self.opt_ok = None
+        if ty == "optbool":
+            return "(py_truthy %s)" % t                 # the truth value of None is False
         if is_list(ty):
             return "(py_nonempty %s)" % t               # truth value of a list
         if ty != "bool":
@@ -820,6 +843,8 @@ class Fn:
                 return ("cls", node.id)
             if node.id in self.attrs and not node.id.startswith("self"):
                 return self.attrs[node.id]
+            if node.id in UNIT_TABLES.get(self.tr.out, {}) and self.mod.toplevel(node.id):
+                return (parse_type(UNIT_TABLES[self.tr.out][node.id]), node.id)
             bad(node, "unknown (or possibly unbound) name %s" % node.id)
         if isinstance(node, ast.Attribute):
             path = dotted(node)
@@ -883,6 +908,16 @@ class Fn:
                 node.comparators[0].id + ".version") in self.attrs and node.comparators[0].id not in env:
             # self._module == _m / is _m: the strategy modules are told apart by their `version` constants
             return ("bool", "(%s =? %s)" % (self.attrs["self._module.version"][1], self.attrs[node.comparators[0].id + ".version"][1]))
+        if (isinstance(node, ast.Compare) and len(node.ops) == 1 and isinstance(node.ops[0], ast.In) and dotted(node.left) == "self"
+                and "self" not in env and self.recv in SELF_OPERAND and self.tr.out in UNIT_PREAMBLE):
+            ty, t = self.ex(node.comparators[0], env)              # self in T for a table row T
+            if ty != "row":
+                bad(node, "`self in` something other than a table row")
+            for cls in ("IPNetwork", "IPRange"):                      # src_contains_row uses both translated __contains__
+                d = self.tr.get(cls, "__contains__", node)
+                self.deps.add((cls, "__contains__"))
+                self.depfns.append(d)
+            return ("out", "bool", "(src_contains_row %s %s)" % (t, SELF_OPERAND[self.recv]))
         if isinstance(node, ast.Compare) and len(node.ops) == 1 and isinstance(node.ops[0], ast.In) and isinstance(
                 node.comparators[0], ast.Attribute) and isinstance(node.comparators[0].value, ast.Name) and (
                 node.comparators[0].value.id in self.mod.classes and node.comparators[0].value.id not in env):
@@ -1991,7 +2026,7 @@ def generate():
         uses = sorted({d.file for k in t.order for d in t.done[k].depfns} - {ofn}, key=FILES.index)
         fails = failures(t, sorted(t.failed.items(), key=lambda kv: (kv[0][0] or "", kv[0][1])), lambda k: True)
         consts = constants(UNIT_STRATEGY[ofn]) if ofn in UNIT_STRATEGY else []
-        consts += [t.consts[c] for c in sorted(t.consts)]
+        consts += [t.consts[c] for c in sorted(t.consts)] + ([UNIT_PREAMBLE[ofn]] if ofn in UNIT_PREAMBLE else [])
         text = HEAD % (fn + "".join(", " + f for _, f in UNIT_STRATEGY.get(ofn, ())), "", req + "".join(" Gen." + u[:-2] for u in uses)) + (
             "\n".join(consts) + "\n" if consts else "") + "\n".join(t.done[k].body_text for k in t.order) + ("\n" + fails if fails else "")
         text.encode("ascii")
